@@ -2,7 +2,8 @@
 (* The independent complete decision procedure for the constraint-only fragment of RIDDLE    *)
 (* (C02): programs over two booleans and two reals whose statements are boolean literals,     *)
 (* binary disjunctions / exactly-one, linear relations (including !=) and two-way            *)
-(* disjunctions of linear relations. A program is satisfiable iff for some assignment of the *)
+(* disjunctions of linear relations, and disjunctions of a linear relation with a boolean    *)
+(* literal. A program is satisfiable iff for some assignment of the *)
 (* booleans, some choice of disjuncts and some split of every disequality into < or >, the   *)
 (* resulting conjunction of linear constraints is feasible (Fourier-Motzkin, LraSem).         *)
 (* Input: abstract programs (NDJSON, written by tools/gen_problems.py); output: verdicts.     *)
@@ -22,20 +23,25 @@ BoolOK(st, bv) ==    \* bv: <<b0, b1>> truth values
   LET val(b, pos) == bv[b + 1] = pos
   IN CASE st.k = "lit" -> val(st.b, st.pos = 1)
        [] st.k = "or" -> val(st.b, st.pos = 1) \/ val(st.b2, st.pos2 = 1)
-       [] st.k = "xor" -> val(st.b, st.pos = 1) # val(st.b2, st.pos2 = 1)
+       \* exactly one of the distinct operands: a repeated operand counts once (as the reified constructors treat it)
+       [] st.k = "xor" -> IF st.b = st.b2 /\ st.pos = st.pos2 THEN val(st.b, st.pos = 1)
+                          ELSE val(st.b, st.pos = 1) # val(st.b2, st.pos2 = 1)
        [] OTHER -> TRUE
-\* the arithmetic statements of a program as a set of "alternative sets" (one must be chosen from each)
-ArithChoices(st) ==
+\* the arithmetic statements of a program as a set of "alternative sets" (one must be chosen from each), under the
+\* boolean assignment bv
+ArithChoices(st, bv) ==
   CASE st.k = "rel" -> RelAlts(st.r)
     [] st.k = "disj" -> RelAlts(st.r) \cup RelAlts(st.r2)
+    [] st.k = "relor" -> IF bv[st.b + 1] = (st.pos = 1) THEN {{}} ELSE RelAlts(st.r)      \* relation | literal
     [] OTHER -> {{}}
-RECURSIVE SomeFeasible(_, _, _)
-SomeFeasible(stmts, i, acc) ==
+RECURSIVE SomeFeasible(_, _, _, _)
+SomeFeasible(stmts, i, acc, bv) ==
   IF i > Len(stmts) THEN Feasible(acc)
-  ELSE \E alt \in ArithChoices(stmts[i]) : SomeFeasible(stmts, i + 1, acc \cup alt)
+  ELSE \E alt \in ArithChoices(stmts[i], bv) : SomeFeasible(stmts, i + 1, acc \cup alt, bv)
 Sat(p) ==
-  /\ \E bv \in {<<x, y>> : x \in BOOLEAN, y \in BOOLEAN} : \A i \in DOMAIN p.stmts : BoolOK(p.stmts[i], bv)
-  /\ SomeFeasible(p.stmts, 1, {})
+  \E bv \in {<<x, y>> : x \in BOOLEAN, y \in BOOLEAN} :
+     /\ \A i \in DOMAIN p.stmts : BoolOK(p.stmts[i], bv)
+     /\ SomeFeasible(p.stmts, 1, {}, bv)
 
 ASSUME ndJsonSerialize(Out, [i \in DOMAIN In |-> [id |-> In[i].id, sat |-> Sat(In[i])]])
 ASSUME PrintT(<<"DECIDED", Len(In)>>)
